@@ -29,7 +29,7 @@ UNITS = {
     "assembler": {"tpl": "assembler.rs", "props": ["C08", "C12", "C14", "C16", "C18"],
                   "fn_props": {**PRELUDE_FNS, "em_\\d+": ["C08", "C16"], "as_proc_def|as_call|as_jmps_loops": ["C08", "C14"],
                                "as_procedure": ["C08", "C16"], "as_int": ["C14", "C18"], "as_offset": ["C12", "C14"],
-                               "as_byte_label|as_word_label|as_unsupported": ["C14"], "add_entry": ["C16"], "new|get_type": ["C08", "C14"]}},
+                               "as_byte_label|as_word_label|as_unsupported|as_offset_as_byte": ["C14"], "as_d[bw]_.*|as_set|advance_data_counter": ["C12", "C14"], "add_entry": ["C16"], "new|get_type": ["C08", "C14"]}},
 }
 
 VERUS_TRUSTED = [
